@@ -716,4 +716,5 @@ def rule_regex(ctx):
 def rules(tier):
     from . import carry, c04
     return [rule_build, rule_both, rule_struct, rule_types, rule_guard, rule_witness, rule_regex,
-            carry.make_clone_rule("R-C19-clone", c04.ALL_CRATES, 40)]
+            carry.make_clone_rule("R-C19-clone", c04.ALL_CRATES, 40),
+            carry.make_accessor_rule("R-C19-accessor", c04.ALL_CRATES, 80)]
